@@ -726,6 +726,13 @@ def gen_cases(ctx):
         cases.append(gen_stream_steered(ctx, rng, k))
     for k in range(ctx.scale(26, 360)):
         cases.append(gen_batch(ctx, rng, k, "tiny" if k % 4 == 3 else "main"))
+    # one batch history with test batches larger than any plausible internal block size
+    big_ops = [["ref", [[clean(v)] for v in rng.normal(size=80)]]]
+    for shift in (0.0, 0.5, 0.0):
+        b = rng.normal(size=4500); b[::2] += shift
+        big_ops.append(["upd", [[clean(v)] for v in b]])
+    cases.append({"kind": "batch", "fam": "large", "params": {"alpha": 0.2, "bootstrap_samples": 5, "count_ubound": 8}, "m": 1,
+                  "ops": big_ops, "seed": (ctx.seed + 4242) % 100000})
     for k in range(ctx.scale(4, 40)):
         cases.append(gen_quantile(ctx, rng, k))
     for c in cases:
